@@ -10,6 +10,8 @@
 //!
 //! Output lines (tab separated, strings escaped with hxlib::runner::esc):
 //!   P  prog class source
+//!   S  prog sched                 (a run starts; if the process dies the last S names the run)
+//!   E  prog sched event           (first loss event of a known class in the current run)
 //!   R  prog sched class output value detail collections kf1 kf2 explained exposure
 //!   X  prog sched coll signature detail
 //!   D  prog sched coll depth,ip,op  <Coq gcq term>  <Coq observation term>
@@ -250,6 +252,7 @@ mod imp {
         pub dumps: Vec<(u64, (usize, usize, u8), String, String)>,
         pub max_dumps: usize,
         pub rng: Option<Rng>,
+        pub tag: String, // "<prog>\t<sched>" for the event lines printed while the run is in progress
     }
 
     fn fn_flat(f: &AuditFn, depth: u32, out: &mut Vec<(usize, bool)>) {
@@ -406,6 +409,7 @@ mod imp {
             if kf1_here {
                 self.kf1 += 1;
                 if self.kf1 == 1 {
+                    println!("E\t{}\tnested-const-loss", self.tag);
                     self.problem("reachable-freed:only-via-nested-function-constant".into(),
                                  format!("collection {} at op {}", self.collections, pre.site.2));
                 }
@@ -416,6 +420,7 @@ mod imp {
                     self.kf2 += 1;
                     self.lost.insert(p);
                     if self.kf2 == 1 {
+                        println!("E\t{}\tmakeclosure-fn-loss", self.tag);
                         self.problem("unrooted-local-freed:makeclosure-function".into(),
                                      format!("collection {} slot {}", self.collections, p));
                     }
@@ -483,6 +488,7 @@ mod imp {
         let budget = arg_u64("--budget", 150_000);
         let max_dumps = arg_u64("--dumps-per-run", 4) as usize;
         let opt = arg_u64("--opt", 0) as u32;
+        let start = arg_u64("--start", 0) as usize;
         let mut progs: Vec<(String, String)> = Vec::new();
         if let Some(f) = arg("--file") {
             let text = std::fs::read_to_string(&f).expect("read --file");
@@ -500,6 +506,9 @@ mod imp {
         }
         let handle = std::thread::Builder::new().stack_size(256 << 20).spawn(move || {
             for (idx, (cls, src)) in progs.iter().enumerate() {
+                if idx < start {
+                    continue;
+                }
                 println!("P\t{}\t{}\t{}", idx, cls, esc(src));
                 let rk = 3 + (seed.wrapping_mul(31).wrapping_add(idx as u64 * 7)) % 11;
                 let scheds: Vec<(u8, u64)> = vec![(1, 0), (2, 0), (3, 2), (3, 3), (3, 7), (4, rk), (4, rk + 13)];
@@ -507,8 +516,11 @@ mod imp {
                     let rec = Rc::new(RefCell::new(Recorder {
                         max_dumps,
                         rng: Some(Rng::new(seed ^ ((idx as u64) << 20) ^ ((gc.0 as u64) << 8) ^ gc.1)),
+                        tag: format!("{}\t{}:{}", idx, gc.0, gc.1),
                         ..Default::default()
                     }));
+                    // printed before the run so that a crash of the process can be attributed
+                    println!("S\t{}\t{}:{}", idx, gc.0, gc.1);
                     let rc2 = rec.clone();
                     verif::pending_fn_set(None);
                     verif::gc_audit_install(Box::new(move |vm, after| rc2.borrow_mut().on_collect(vm, after)));
